@@ -166,27 +166,18 @@ fn generics(g: &syn::Generics) -> String {
         .collect())
 }
 
-struct FirstLit(Option<String>);
-impl<'ast> Visit<'ast> for FirstLit {
-    fn visit_expr_lit(&mut self, el: &'ast ExprLit) {
-        if self.0.is_some() {
-            return;
-        }
-        self.0 = Some(match &el.lit {
-            Lit::Int(li) => format!("(cint {})", opt(li.base10_parse::<i128>().ok().map(|v| format!("z{v}")))),
-            _ => "cnotint".into(),
-        });
-    }
-}
-
+// const initialiser: the shapes parse_const_expr distinguishes (Model/Syntax.v cexpr)
 fn cexpr(e: &Expr) -> String {
-    let mut v = FirstLit(None);
-    syn::visit::visit_expr(&mut v, e);
-    let plain = match e {
-        Expr::Lit(ExprLit { lit: Lit::Int(li), .. }) => li.base10_parse::<i128>().ok().map(|v| format!("z{v}")),
-        _ => None,
-    };
-    format!("(cexpr {} {})", opt(v.0), opt(plain))
+    match e {
+        Expr::Lit(ExprLit { lit: Lit::Int(li), .. }) => {
+            format!("(celit (cint {}))", opt(li.base10_parse::<i128>().ok().map(|v| format!("z{v}"))))
+        }
+        Expr::Lit(_) => "(celit cnotint)".into(),
+        Expr::Paren(p) => format!("(ceparen {})", cexpr(&p.expr)),
+        Expr::Group(g) => format!("(ceparen {})", cexpr(&g.expr)),
+        Expr::Unary(syn::ExprUnary { op: syn::UnOp::Neg(_), expr, .. }) => format!("(ceneg {})", cexpr(expr)),
+        _ => "ceother".into(),
+    }
 }
 
 fn use_tree(t: &syn::UseTree) -> String {
